@@ -23,6 +23,12 @@ type c01Case struct {
 
 func c01Random(seed uint64, i int, ntexts int) *c01Case {
 	rng := gen.Derive(seed, "C01", i)
+	if i%20 == 13 {
+		// wide rather than deep: counts of captures, alternatives, list items, groups, subroutines, stored
+		// patterns and lines on both sides of 10, 16, 32, 64, 100, 128, 256
+		p, texts, _ := gen.WideProgram(rng, rng.Intn(gen.WideKinds))
+		return &c01Case{p, gen.RenderProgram(p), texts}
+	}
 	sc := gen.DefaultScope
 	switch i % 5 {
 	case 0:
@@ -151,7 +157,7 @@ func C01(r *drv.Run) {
 	if !quick(r) {
 		nprog, ntext = 150000, 16
 	}
-	r.Rule = "programs: seeded random over the core search language (literals, not, caseless, classes, anchors, in/not in, all loop forms greedy and fewest, or, groups, captures, back-references, inline subroutines incl. guarded recursion, set-to-pattern with/without predicate) + exhaustive small programs; inputs derived from each program (sampled matches, prefixes, one-byte edits, concatenations, noise); plus a deep family: 8 fixed shapes (greedy / lazy loop then literal, loop of a group with an optional part, recursion depth, recursion inside a loop, many matches, capture in a deep loop then back-reference, negated-list run) on structured inputs sized k = 10, 63..65, 127..129, 255..257, 511..513 (thorough: ..1400) repetitions, and 5 counted-loop shapes whose bounds are k = 15..17, 31..33, 63..65, 100, 127..129 (thorough: ..300) on inputs with k-1, k, k+1, 2k, 2k+1 repetitions; plus caseless literals beyond ASCII (every ordered pair of 26 letters from Greek / Latin-1 / Cyrillic / digraph folding orbits, alone, in a loop with an alternative, in a list; five words). Oracle: reference backtracker (ref/), cross-checked by Go regexp on the regular subset. Non-trivial = reference found >= 1 match AND the VM hook saw >= 1 resume from a saved choice point; distinct by (program, text)."
+	r.Rule = "programs: seeded random over the core search language (literals, not, caseless, classes, anchors, in/not in, all loop forms greedy and fewest, or, groups, captures, back-references, inline subroutines incl. guarded recursion, set-to-pattern with/without predicate) + exhaustive small programs; inputs derived from each program (sampled matches, prefixes, one-byte edits, concatenations, noise); plus a deep family: 8 fixed shapes (greedy / lazy loop then literal, loop of a group with an optional part, recursion depth, recursion inside a loop, many matches, capture in a deep loop then back-reference, negated-list run) on structured inputs sized k = 10, 63..65, 127..129, 255..257, 511..513 (thorough: ..1400) repetitions, and 5 counted-loop shapes whose bounds are k = 15..17, 31..33, 63..65, 100, 127..129 (thorough: ..300) on inputs with k-1, k, k+1, 2k, 2k+1 repetitions; plus caseless literals beyond ASCII (every ordered pair of 26 letters from Greek / Latin-1 / Cyrillic / digraph folding orbits, alone, in a loop with an alternative, in a list; five words). Oracle: reference backtracker (ref/), cross-checked by Go regexp on the regular subset. Non-trivial = reference found >= 1 match AND the VM hook saw >= 1 resume from a saved choice point; distinct by (program, text). One random program in twenty is WIDE rather than deep: 9..300 captures / alternatives / list items / optional groups / inline subroutines / stored patterns / anchored lines, counts on both sides of 10, 16, 32, 64, 100, 128, 256, on texts holding matches, near misses and leftovers."
 	r.Assumptions = []string{
 		"reference matcher (harness/ref) is the meaning of the pattern as written; it is cross-checked against Go regexp on the regular subset on every case",
 		"word start at end of input / word end at offset 0 / word end at end of input after a non-word byte are don't-care (either answer accepted)",
@@ -188,7 +194,17 @@ func C01(r *drv.Run) {
 			r.Count("programs_in_regular_subset", 1)
 		}
 		return &drv.Item{Case: wire.Case{Op: "run", Src: []byte(cs.src), Texts: cs.texts, StepBudget: 400000},
-			Check: func(res *wire.Result) { checkSpansCase(r, cs, res, sc, "") }}
+			Check: func(res *wire.Result) {
+				checkSpansCase(r, cs, res, sc, "")
+				if i%20 == 13 {
+					for _, run := range res.Runs {
+						if run.Budget == "" && run.Panic == nil && len(run.Matches) >= 2 {
+							r.Count("wide_programs_with_two_or_more_matches", 1)
+							break
+						}
+					}
+				}
+			}}
 	})
 
 	c01Deep(r)
@@ -196,6 +212,9 @@ func C01(r *drv.Run) {
 
 	// coverage floors: a run that observed nothing cannot pass
 	if r.NViolations() == 0 {
+		if r.Counter("wide_programs_with_two_or_more_matches") < int64(nprog/40) {
+			r.Inconclusive(fmt.Sprintf("coverage floor: only %d of %d wide programs ran with two or more matches", r.Counter("wide_programs_with_two_or_more_matches"), nprog/20))
+		}
 		if r.Counter("caseless_non_ascii_runs_with_match") == 0 {
 			r.Inconclusive("coverage floor: no caseless literal beyond ASCII matched")
 		}
